@@ -445,7 +445,8 @@ impl Unit {
             Hour => 24,
             Minute | Second => 60,
             Millisecond | Microsecond | Nanosecond => 1000,
-            Auto => unreachable!(),
+            // "auto" is not a unit that can be rounded to: no maximum, callers reject it.
+            Auto => return None,
         };
 
         Some(max)
